@@ -189,6 +189,9 @@ func updateRegex(filePath string, ruleId string, chainOffset uint8, newRegex str
 	var line []byte
 	foundRule := false
 	chainCount := uint8(0)
+	// A following SecRule only belongs to the chain if the rule before it carries the `chain` action.
+	chainActionRegex := regexp.MustCompile(`\bchain\b`)
+	sawChainAction := false
 	for index, line = range lines {
 		if !foundRule && idRegex.Match(line) {
 			foundRule = true
@@ -196,10 +199,18 @@ func updateRegex(filePath string, ruleId string, chainOffset uint8, newRegex str
 				index--
 				break
 			}
+			sawChainAction = chainActionRegex.Match(line)
 			continue
 		}
 		if foundRule && regex.SecRuleRegex.Match(line) {
+			if !sawChainAction {
+				// end of the chain, the next rule starts here
+				break
+			}
 			chainCount++
+			sawChainAction = false
+		} else if foundRule && chainActionRegex.Match(line) {
+			sawChainAction = true
 		}
 		if foundRule && chainCount == chainOffset {
 			break
